@@ -27,6 +27,8 @@ T = [
  ("C01-escaped-cr-before-newline", W("file","bash","i0","echo \\\r \nfoo\n")),
  ("C01-zsh-minify-short-subscript", W("file","zsh","i0,mn","echo ${x}[b]\n")),
  ("C01-zsh-redirect-paren-word", W("file","zsh","i0","a > (0)\n")),
+ ("C01-zsh-redirect-bang-word", W("file","zsh","i0","> !1\n")),
+ ("C01-zsh-dollar-hash-backquote-escape", W("file","zsh","i0","`\"$#\\$\"`")),
  ("C01-minify-empty-block", W("file","mksh","i0,mn","{ }\n")),
  ("C01-command-first-newline", W("cmd#0","bash","i0","case x in\nesac\n")),
  ("C01-zsh-dollar-hash-eof", W("word#1","zsh","i0","echo $#\n")),
